@@ -2999,6 +2999,34 @@ static Node *new_inc_dec(Node *node, Token *tok, int addend) {
                                  tok),
                       tok);
   }
+
+  // The same goes for a bit-field, whose addition wraps at its width
+  // and whose address cannot be taken:
+  // `tmp = &A, old = tmp->x, tmp->x = old + n, old`
+  if (node->kind == ND_MEMBER && node->member->is_bitfield && !node->ty->is_atomic) {
+    Obj *ptr = new_lvar("", pointer_to(node->lhs->ty));
+    Obj *old = new_lvar("", node->ty);
+
+    Node *expr1 = new_binary(ND_ASSIGN, new_var_node(ptr, tok),
+                             new_unary(ND_ADDR, node->lhs, tok), tok);
+
+    Node *mem1 = new_unary(ND_MEMBER, new_unary(ND_DEREF, new_var_node(ptr, tok), tok), tok);
+    mem1->member = node->member;
+    Node *mem2 = new_unary(ND_MEMBER, new_unary(ND_DEREF, new_var_node(ptr, tok), tok), tok);
+    mem2->member = node->member;
+
+    Node *expr2 = new_binary(ND_ASSIGN, new_var_node(old, tok), mem1, tok);
+    Node *expr3 = new_binary(ND_ASSIGN, mem2,
+                             new_add(new_var_node(old, tok), new_num(addend, tok), tok),
+                             tok);
+
+    return new_binary(ND_COMMA, expr1,
+                      new_binary(ND_COMMA, expr2,
+                                 new_binary(ND_COMMA, expr3, new_var_node(old, tok), tok),
+                                 tok),
+                      tok);
+  }
+
   return new_cast(new_add(to_assign(new_add(node, new_num(addend, tok), tok)),
                           new_num(-addend, tok), tok),
                   node->ty);
